@@ -74,11 +74,13 @@ func rawDecrypt(data, key, iv []byte) []byte {
 func run(c *hc.Ctx) error {
 	r := c.Rng
 	var q c04shared.Queue
+	var rt c04shared.Retainer
 	n := c.N(20000, 1000000)
 	for i := 0; i < n; i++ {
 		if err := q.MaybeFlush(c); err != nil {
 			return err
 		}
+		rt.MaybeVerify(c, 2048)
 		key, iv := r.Bytes(32), r.Bytes(32)
 		if r.Chance(3) {
 			key = make([]byte, 32)
@@ -110,12 +112,13 @@ func run(c *hc.Ctx) error {
 			}
 			q.Add(line, "ok "+hc.Hex(enc))
 			c.Count("op.EncryptExchangeAnswer")
+			rt.Keep("EncryptExchangeAnswer", line, func() []byte { return enc })
+			data = append([]byte{}, enc...) // the decryption below gets its own copy of the ciphertext
 			// monitor: the genuine answer must come back
 			got, derr, p := decryptSafe(enc, key, iv)
 			if p != nil || derr != nil || !bytes.Equal(got, ans) {
 				c.Fail("genuine-answer-not-recovered", line, fmt.Sprintf("err=%v panic=%v got %d bytes", derr, p, len(got)))
 			}
-			data = enc
 			kind = "genuine"
 		case k < 9: // genuine with one flipped bit
 			ans := r.Bytes(r.Range(0, 300))
@@ -176,6 +179,9 @@ func run(c *hc.Ctx) error {
 			}
 		default:
 			impl = "ok " + showOpt(dst)
+			if dst != nil {
+				rt.Keep("DecryptExchangeAnswer", line, func() []byte { return dst })
+			}
 			// ---- the property: success means authenticated, non-nil data
 			plain := rawDecrypt(data, key, iv)
 			switch {
@@ -219,6 +225,33 @@ func run(c *hc.Ctx) error {
 			q.Add(gl, showOpt(g))
 		}
 	}
+	rt.Verify(c)
+	// from 2..4 goroutines at once (the helpers share no state): genuine answers must come back and
+	// random ciphertexts must be errors; results re-read afterwards
+	workers := r.Range(2, 4)
+	c04shared.Concurrently(c, &rt, workers, c.N(2000, 40000)/workers, func(r *hc.RNG, w, i int) {
+		key, iv := r.Bytes(32), r.Bytes(32)
+		ans := r.Bytes(r.Range(0, 300))
+		rnd := r.Bytes(15)
+		line := fmt.Sprintf("enc %s %s %s %s", hc.Hex(rnd), hc.Hex(ans), hc.Hex(key), hc.Hex(iv))
+		c.Count("concurrent.answer")
+		enc, err := crypto.EncryptExchangeAnswer(bytes.NewReader(rnd), ans, key, iv)
+		if err != nil {
+			c.Fail("encrypt-error", line, err.Error())
+			return
+		}
+		rt.Keep("EncryptExchangeAnswer(concurrent)", line, func() []byte { return enc })
+		got, derr, p := decryptSafe(append([]byte{}, enc...), key, iv)
+		if p != nil || derr != nil || !bytes.Equal(got, ans) {
+			c.Fail("genuine-answer-not-recovered", line, fmt.Sprintf("concurrent use, %d goroutines: err=%v panic=%v", workers, derr, p))
+			return
+		}
+		rt.Keep("DecryptExchangeAnswer(concurrent)", line, func() []byte { return got })
+		junk := r.Bytes(16 * r.Range(1, 8))
+		if dst, err, _ := decryptSafe(junk, key, iv); err == nil {
+			c.Fail("success-without-data", fmt.Sprintf("dec val %s %s %s", hc.Hex(junk), hc.Hex(key), hc.Hex(iv)), fmt.Sprintf("concurrent use: accepted %d random bytes, data=%v", len(junk), dst != nil))
+		}
+	})
 	if err := q.Flush(c); err != nil {
 		return err
 	}
